@@ -453,7 +453,7 @@ func cryptoRule(what string) func(string) string {
 		if tier == "thorough" {
 			d = "single key deviations at every length 0..320; the complete count x bearer x direction grid at the edge lengths; all pairs (key, count) of deviations x direction x bearer in {0,1,16,31}; long inputs up to 65 528 bits hitting every residue mod 32"
 		}
-		return what + " Deviation-bounded enumeration over (key, COUNT, bearer, direction, length, pattern) from published defaults: key alphabet = 2 published keys, zero, ones, the 128 single-bit keys, the 16 single-octet keys; COUNT alphabet = 0, 1, FFFFFFFF, 00FFFFFF, 7FFFFFFF, A5A5A5A5 and the 32 single-bit counts; all 32 bearers x 2 directions; every bit length 0..320 with 4 content patterns; " + d + "; through both the wrapper and the per-algorithm functions; plus call histories (one parameter tuple reused with ascending, descending and repeated lengths). Mixed-call histories: all ordered pairs and a-b-a triples (thorough: all triples) over an alphabet of 66 calls — ciphering and integrity x algorithm 1..3 x wrapper/direct x 0, 1, 16, 33 octets with non-zero COUNT, bearer and direction, plus the refused calls (NULL and unknown algorithm, bearer 32, direction 2, nil payload) — every valid call of the property's kind compared with the standard function, so that a scratch block, IV or keystream kept between calls of different algorithms shows. A case is distinct by its parameter tuple; component checks (hooks) compare every table entry and component function exhaustively."
+		return what + " Deviation-bounded enumeration over (key, COUNT, bearer, direction, length, pattern) from published defaults: key alphabet = 2 published keys, zero, ones, the 128 single-bit keys, the 16 single-octet keys; COUNT alphabet = 0, 1, FFFFFFFF, 00FFFFFF, 7FFFFFFF, A5A5A5A5 and the 32 single-bit counts; all 32 bearers x 2 directions; every bit length 0..320 with 4 content patterns; " + d + "; through both the wrapper and the per-algorithm functions; payloads and messages are handed over as windows into a larger buffer (spare capacity and non-zero canary octets around them; the surroundings must be unchanged, and octets beyond the stated length must not influence the result); plus call histories (one parameter tuple reused with ascending, descending and repeated lengths). Mixed-call histories: all ordered pairs and a-b-a triples (thorough: all triples) over an alphabet of 66 calls — ciphering and integrity x algorithm 1..3 x wrapper/direct x 0, 1, 16, 33 octets with non-zero COUNT, bearer and direction, plus the refused calls (NULL and unknown algorithm, bearer 32, direction 2, nil payload) — every valid call of the property's kind compared with the standard function, so that a scratch block, IV or keystream kept between calls of different algorithms shows. A case is distinct by its parameter tuple; component checks (hooks) compare every table entry and component function exhaustively."
 	}
 }
 
